@@ -76,9 +76,9 @@ func genC12(seed uint64) *Plan {
 		g.P.Actors = append(g.P.Actors, a)
 	}
 	horizon := int64(20000)
-	if g.pct(40) {
-		for i := 0; i < int(g.rng(1, 2)); i++ {
-			g.P.Events = append(g.P.Events, Event{AtMs: g.rng(500, horizon), Kind: g.pickS("move", "shuffle"), A: 0, B: g.rng(0, nparts-1)})
+	if g.pct(55) {
+		for i := 0; i < int(g.rng(1, 4)); i++ {
+			g.P.Events = append(g.P.Events, Event{AtMs: g.rng(500, horizon), Kind: g.pickS("move", "move", "shuffle"), A: 0, B: g.rng(0, nparts-1)})
 		}
 	}
 	if g.pct(30) && nm > 1 {
